@@ -64,7 +64,7 @@ def run(chk):
     chk.coverage["rule"] = (
         "schemas of ~8 CAN bindings named after their struct (ids 0..2047, some shared; bus names of 4, 1-3 characters or none) with payloads of "
         "at most 8 bytes; one C++ process hosts Can{CanStaticSchema} and Can{CanDynamicSchema loaded from the reflection binary}; Encode by name, "
-        "Decode of the produced frame, and Decode of frames with non-matching (id, bus) are compared in Coq with the model; non-trivial = the binding "
+        "Decode of the produced frame, and Decode of frames with non-matching (id, bus), each presented one to three times in a row after a recognised frame, are compared in Coq with the model; non-trivial = the binding "
         "has a bus; distinct = (schema, op, input)")
     refl = get_reflection_schema().unwrap()
     work = common.scratch_dir("verif_c18_")
@@ -165,12 +165,16 @@ def run(chk):
                     fbus = chk.rng.choice(["can1", "can2", "bus0", "zzzz", "ab", "yyyy", "CAN1", "CAN2", "BUS0", "Can1"]).encode().ljust(4, b"\0").hex()
                     matches = [j for j in cans if j.fields["id"] == sid and (j.fields.get("bus") or "").encode().ljust(4, b"\0").hex() == fbus]
                     data = "00" * 8
-                    sd = drv.ask(f"SD {fbus} {sid} 8 {data}")
-                    dd = drv.ask(f"DD {fbus} {sid} 8 {data}")
-                    cases.append(cpair(sterm, bterm, f"(SDec {frame_term(fbus, sid, 8, data)} {dec_obs(sd)[0]})")); meta.append((text, "SD-unknown", sid, fbus))
-                    cases.append(cpair(sterm, bterm, f"(DDecC {frame_term(fbus, sid, 8, data)} {dec_obs(dd)[0]})")); meta.append((text, "DD-unknown", sid, fbus))
-                    if not matches and (sd != "NONE" or dd != "NONE"):
-                        fails.append({"kind": "unknown-frame-not-reported-as-unknown", "schema": text, "sid": sid, "bus": fbus, "static": sd, "dynamic": dd})
+                    # CAN traffic repeats: the same frame is presented two or three times in a row (right after a frame that was
+                    # recognised), and every presentation must be answered like the first
+                    for rep_no in range(chk.rng.choice([1, 2, 3])):
+                        sd = drv.ask(f"SD {fbus} {sid} 8 {data}")
+                        dd = drv.ask(f"DD {fbus} {sid} 8 {data}")
+                        cases.append(cpair(sterm, bterm, f"(SDec {frame_term(fbus, sid, 8, data)} {dec_obs(sd)[0]})")); meta.append((text, "SD-unknown", sid, fbus))
+                        cases.append(cpair(sterm, bterm, f"(DDecC {frame_term(fbus, sid, 8, data)} {dec_obs(dd)[0]})")); meta.append((text, "DD-unknown", sid, fbus))
+                        if not matches and (sd != "NONE" or dd != "NONE"):
+                            fails.append({"kind": "unknown-frame-not-reported-as-unknown", "schema": text, "sid": sid, "bus": fbus, "static": sd, "dynamic": dd,
+                                          "presentation": rep_no + 1, "after": "a recognised frame of binding " + im.name})
             finally:
                 drv.close()
     finally:
